@@ -184,6 +184,16 @@ static void make_mutations(HdrCase& c, int level) {
       std::string r = "!";
       for (char ch : key) { if (ch == ' ') r += (r.size() % 2 ? "_" : "  "); else if (ch != '!') r += (char)toupper((unsigned char)ch); }
       add("respell", k, k - 1, 1, { r + ":=" + L.substr(as + 2) }, c.nl);
+      // ... and with TABs: between the words, around the index brackets, around ':='
+      std::string t;
+      for (char ch : key) { if (ch == ' ') t += '\t'; else if (ch == '[') t += "\t[\t"; else if (ch == ']') t += "\t]"; else t += (k % 2 ? (char)toupper((unsigned char)ch) : ch); }
+      add("respell_tab", k, k - 1, 1, { "\t" + t + "\t:=\t" + val }, c.nl);
+      // the value with TABs between its words and changed case (neutral for enumerated keys only)
+      if (!val.empty() && val.find(' ') != std::string::npos && val[0] != '{') {
+        std::string v;
+        for (char ch : val) v += ch == ' ' ? '\t' : (char)toupper((unsigned char)ch);
+        add("value_tab", k, k - 1, 1, { key + ":= " + v }, c.nl);
+      }
     }
     // index changes
     const auto lb = key.find('['), rb = key.find(']');
